@@ -99,6 +99,7 @@ def main():
     id_orcs = [f"o{i} {c}" for i, c in enumerate(oracles)]
 
     screened = {}
+    screened_panics = []
     model_out = {}
     if drv_ok:
         model_out = C.run_bin(C.DRIVER_BIN, id_cases)
@@ -120,6 +121,13 @@ def main():
         cid, _, body = l.partition(" ")
         if cid in danger:
             screened[body] = model_out[cid]
+            # the model says the input exhausts memory (K1): the real code is run on it in a process of its own under an
+            # address-space and a time limit; being killed there is the modelled abort, a typed error is fine too (the real code
+            # may fail before it allocates), but a *panic* is not an abort
+            if har_ok and len(screened) <= 12:
+                g = C.run_guarded(C.HARNESS_BIN, l)
+                if g.startswith("panic"):
+                    screened_panics.append((body, "implementation panics on this input (the model predicts resource exhaustion, not a panic)"))
             continue
         io, mo = impl_out.get(cid, "missing"), model_out.get(cid, "missing")
         if io != mo:
@@ -130,7 +138,7 @@ def main():
                 detail_diffs.append((body, io, mo))
         if impl_rel and impl_rel.get(cid, "missing") != io:
             disagreements.append((body, "release:" + impl_rel.get(cid, "missing"), "debug:" + io, True))
-    oracle_fails = []
+    oracle_fails = list(screened_panics) if P.get("abort_is_violation") or prop == "C05" else []
     for l in id_orcs:
         cid, _, body = l.partition(" ")
         for tag, outm in (("", impl_out), ("release:", impl_rel)):
